@@ -17,6 +17,7 @@ package c19
 
 import (
 	"fmt"
+	"os"
 	"regexp"
 	"strings"
 	"testing"
@@ -89,8 +90,8 @@ func report(c *rig.Check, x *runner, sen *rig.Sentinel) {
 		c.Inconclusive(x.inconc)
 	}
 	for _, p := range sen.Drain("panic") {
-		if strings.Contains(p.Attrs, "SubscribeToEvents") || strings.Contains(p.Attrs, "eventCallback") || strings.Contains(p.Attrs, "sendEventToHydra") || strings.Contains(p.Attrs, "c19.") {
-			x.findings = append(x.findings, finding{Sig: "panic:recovered-on-the-event-path", What: "recovered panic while delivering an event: " + p.Msg + " " + trunc(p.Attrs, 600), Round: -1})
+		if strings.Contains(p.Attrs, "SubscribeToEvents") || strings.Contains(p.Attrs, "eventCallback") || strings.Contains(p.Attrs, "sendEventToHydra") || strings.Contains(p.Attrs, "c19.(*fakeStream)") {
+			x.findings = append(x.findings, finding{Sig: "panic:recovered-on-the-event-path", What: "recovered panic while delivering an event: " + p.Msg + " " + trunc(p.Attrs, 1400), Round: -1})
 		} else {
 			c.Count("recovered_panics_elsewhere", 1)
 		}
@@ -181,6 +182,36 @@ func child(t *testing.T, c *rig.Check) {
 
 var digits = regexp.MustCompile(`[0-9]+`)
 
+// crashOnEventPath reports whether the goroutine that hit the fatal error / panic was delivering
+// an event (its stack is the first goroutine block after the message).
+func crashOnEventPath(logPath string) bool {
+	b, err := os.ReadFile(logPath)
+	if err != nil {
+		return false
+	}
+	s := string(b)
+	i := strings.Index(s, "fatal error:")
+	if j := strings.Index(s, "panic:"); i < 0 || (j >= 0 && j < i) {
+		i = j
+	}
+	if i < 0 {
+		return false
+	}
+	s = s[i:]
+	if j := strings.Index(s, "\ngoroutine "); j >= 0 {
+		s = s[j+1:]
+		if k := strings.Index(s, "\n\n"); k >= 0 {
+			s = s[:k]
+		}
+	}
+	for _, m := range []string{"SubscribeToEvents", "eventCallbackFunction", "sendEventToHydra", "sendDeletedEventToClient", "c19.(*fakeStream)"} {
+		if strings.Contains(s, m) {
+			return true
+		}
+	}
+	return false
+}
+
 func TestCheck(t *testing.T) {
 	c := rig.NewCheck(t, "C19", "exploration")
 	defer c.Finish()
@@ -245,7 +276,14 @@ func TestCheck(t *testing.T) {
 			c.Inconclusive(fmt.Sprintf("child %d-%d timed out (watchdog), log %s", sp.From, sp.To, r.LogPath))
 		case len(r.Fatal) > 0:
 			line := digits.ReplaceAllString(r.Fatal[0], "N")
-			c.Violate("child-crash:"+trunc(line, 100), fmt.Sprintf("child process died: %v (log %s)", r.Fatal, r.LogPath), map[string]any{"spec": sp})
+			if crashOnEventPath(r.LogPath) {
+				c.Violate("child-crash:event-path:"+trunc(line, 100), fmt.Sprintf("child process died while delivering an event: %v (log %s)", r.Fatal, r.LogPath), map[string]any{"spec": sp})
+			} else {
+				// a crash of the engine elsewhere (e.g. concurrent map access in an index build) is
+				// decided by the crash-freedom property; here the child's histories are simply lost
+				c.Seen("child_crashes_outside_event_path", trunc(line, 100))
+				c.Inconclusive(fmt.Sprintf("child %d-%d died outside the event path: %s (log %s)", sp.From, sp.To, trunc(line, 80), r.LogPath))
+			}
 		case r.NoPartial || (r.ExitErr != nil && len(r.Races) == 0):
 			c.Inconclusive(fmt.Sprintf("child %d-%d ended without a verdict: %v, log %s", sp.From, sp.To, r.ExitErr, r.LogPath))
 		}
